@@ -17,15 +17,15 @@ PURE = {
 CLAIMED = {
     "C09": ("fault_enumeration",
             "crash-point enumeration (every strict prefix of sampled images) + seeded torn-write/faulty-stream simulation",
-            "Every byte offset at which writing or copying an image can stop is enumerated for each sampled image (connector kind x user lexicon x mapper) and must be rejected without panic; all single-byte substitutions of the magic likewise. Seeded runs add torn writes through a crashing sink followed by restart+read, failing readers and a positive control (the full image through arbitrary chunking/EINTR loads and behaves identically). Exhaustive per image, sampled over images.",
+            "Every byte offset at which writing or copying an image can stop is enumerated for each sampled image (connector kind x user lexicon x mapper) and must be rejected without panic; all single-byte substitutions of the magic likewise (read whole and through a 3-byte-chunked reader); a tail enumeration covers every prefix of the last ~6000 bytes of 96 further images with a last feature of 0-3900 bytes; one world in twelve has an empty unk.def. Seeded runs add torn writes through a crashing sink followed by restart+read, failing readers and a positive control (the full image through arbitrary chunking/EINTR loads and behaves identically). Exhaustive per image, sampled over images.",
             "Trusts the in-memory stream stubs (FaultyReader/FaultySink) to model files; images come from seeded worlds bounded as in DESIGN section 5; bit flips inside a complete image are out of scope (no checksum in the format).",
             "DESIGN.md section 6 (C09)"),
 }
 CLAIMED.update({
     "C04": ("exploration",
             "seeded operation-history simulation of reused workers + op-level scheduler over one shared tokenizer, replica oracle (fresh worker)",
-            "Seeded search over histories (reset/tokenize 0-3x/read/iter/counter ops/recreate over adversarial sentence sequences) of 1-4 simulated caller tasks sharing one Tokenizer, with the interleaving decided by the plan; after every read the tokens must equal a fresh worker's. Sampled, not exhaustive; a Send+Sync probe turns loss of thread-shareability into a reported violation.",
-            "Interleaving is at operation granularity on one OS thread (no std::sync in vibrato to intercept); the fresh-worker replica is the oracle, so a bug that affects fresh and reused workers alike is outside this property.",
+            "Seeded search over histories (reset/tokenize 0-3x/read/iter/counter ops/recreate over adversarial sentence sequences) of 1-4 simulated caller tasks sharing one Tokenizer, with the interleaving decided by the plan; after every read the tokens must equal a fresh worker's. One run in 150 puts a burst of 255..131071 tokenizations of a short sentence between two sentences of one worker (wrap-around of 8/16-bit generation counters). In both tiers a second step runs three real threads over one shared Tokenizer under Miri's seeded scheduler (4 scheduler seeds quick, 32 thorough): no data race, no undefined behaviour, tokens equal to fresh workers'. Sampled, not exhaustive; a Send+Sync probe turns loss of thread-shareability into a reported violation.",
+            "Interleaving in the seeded runs is at operation granularity on one OS thread (no std::sync in vibrato to intercept); sub-operation interleaving only in the Miri step; the fresh-worker replica is the oracle, so a bug that affects fresh and reused workers alike is outside this property.",
             "DESIGN.md section 6 (C04)"),
     "C13": ("exploration",
             "seeded history simulation of the reorder loop against a reference counter recomputed from lattice dumps; reorder->map round trip",
@@ -36,17 +36,17 @@ CLAIMED.update({
 CLAIMED.update({
     "C05": ("exploration",
             "replica-divergence simulation: write->faulty streams->read replicas under seeded histories of later operations; byte-identity and returned-count oracles; hard-fault injection",
-            "Seeded search over histories in which copies of a dictionary go through write/read at arbitrary points (also copies of copies) via short-write/EINTR sinks and short-read/EINTR readers, then all replicas receive the same later operations (user lexicon load/clear, id mapping) and must stay observationally equal (full token tuples for probe sentences x option sets, every id-pair connection cost) and write identical bytes with write() reporting exactly the bytes accepted; hard sink/reader faults must give Err. Dual connectors add a replica rebuilt under another template split. Sampled, not exhaustive.",
-            "Observation is over seeded probes and all id pairs (hook H1); the portable<->AVX2 exchange is a thorough-tier step; stream stubs model files.",
+            "Seeded search over histories in which copies of a dictionary go through write/read at arbitrary points (also copies of copies) via short-write/EINTR sinks and short-read/EINTR readers, then all replicas receive the same later operations (user lexicon load/clear, id mapping) and must stay observationally equal (full token tuples for probe sentences x option sets, every id-pair connection cost) and write identical bytes with write() reporting exactly the bytes accepted; hard sink/reader faults must give Err. Dual connectors add a replica rebuilt under another template split. Worlds include 182-300 ids per side (> 32768 matrix cells), 65536 ids on one side and user lexicons over 64 KiB at low rates. A second step exchanges images between the portable and the AVX2 build in both directions (120 cases per direction quick, 1500 thorough). Sampled, not exhaustive.",
+            "Observation is over seeded probes and all id pairs (hook H1); stream stubs model files; Dictionary::write follows the std convention that the caller flushes a buffering sink it passes by value.",
             "DESIGN.md section 6 (C05)"),
     "C06": ("exploration",
             "two-replica (mapped vs never-mapped) history simulation against a harness-tracked composed permutation; malformed-mapping injection with restart",
-            "Seeded search over orders of {map, map again, load/clear user lexicon, write/read, malformed mapping}: the mapped replica must equal the unmapped one up to the composed permutation (token tuples with translated ids; cost_M(PR(r),PL(l)) == cost_R(r,l) for every pair incl. id 0), for all three connector kinds; every malformed mapping kind must be rejected with Err (never applied, never a panic), after which the replica rebuilt by replaying the history must still agree. Sampled, not exhaustive.",
+            "Seeded search over orders of {map, map again, load/clear user lexicon, write/read, malformed mapping}: the mapped replica must equal the unmapped one up to the composed permutation (token tuples with translated ids; cost_M(PR(r),PL(l)) == cost_R(r,l) for every pair incl. id 0), for all three connector kinds; every malformed mapping kind must be rejected with Err (never applied, never a panic), after which the replica rebuilt by replaying the history must still agree. Worlds include 182-300 ids per side and 65536 ids on one side at low rates. Sampled, not exhaustive.",
             "The composed permutation is computed by the harness from the documented direction of the mapping lists; observation over seeded probes and all id pairs.",
             "DESIGN.md section 6 (C06)"),
     "C08": ("exploration",
             "history simulation of load/replace/clear against pristine replicas (rebuilt with only the current rows; system lexicon extended by the rows); malformed-lexicon and reader-fault injection with restart",
-            "Seeded search over load/replace/clear histories (optionally on mapped dictionaries, through short-read/EINTR readers): the dictionary must equal a pristine replica holding only the current rows (tokens and all connection costs), its per-position candidate multisets and optimal cost must equal those of a dictionary whose system lexicon contains the same rows, and no User token may appear without a user lexicon; every malformed lexicon kind and every reader hard error must give Err without panic. Sampled, not exhaustive.",
+            "Seeded search over load/replace/clear histories (optionally on mapped dictionaries, through short-read/EINTR readers): the dictionary must equal a pristine replica holding only the current rows (tokens and all connection costs), its per-position candidate multisets and optimal cost must equal those of a dictionary whose system lexicon contains the same rows, and no User token may appear without a user lexicon; every malformed lexicon kind and every reader hard error must give Err without panic. One user lexicon in 150 is larger than 64 KiB with the probed rows beyond the first 64 KiB. Sampled, not exhaustive.",
             "Candidate multisets come from the lattice dump hook H2; token sequences are not compared against the extended system lexicon (ties).",
             "DESIGN.md section 6 (C08)"),
 })
@@ -59,13 +59,13 @@ CLAIMED.update({
 })
 CLAIMED.update({
     "C07": ("exploration",
-            "hidden-choice exploration: seeded template-split orders of the dual connector (hook H5) against the raw connector and a harness-side defining sum; thorough adds the portable<->AVX2 exchange",
-            "For seeded bigram models (K = 1..20 templates, ragged rows, shared/quoted strings, BOS/EOS lines) the raw connector must equal the harness-side defining feature-pair sum for every id pair incl. id 0, the dual connector must equal the raw one under the ascending and 2-8 seeded trial orders of its greedy template split (in production that order is randomly keyed hash order and differs from run to run), and raw, dual and a matrix.def materialised from the sums must tokenize alike. Sampled over models and split orders, not exhaustive.",
-            "The for-all-models content of the statement is sampled as workload; bigram.cost contains no literal '*' feature and no '/'-only line; costs bounded so the pre-summed part fits 16 bits.",
+            "hidden-choice exploration: seeded template-split orders of the dual connector (hook H5) and seeded hash order (hash-order seam) against the raw connector, a harness-side defining sum and an executable reference model of the dual connector; portable<->AVX2 exchange",
+            "For seeded bigram models (K = 1..20 templates, ragged rows, shared/quoted strings, BOS/EOS lines, aligned blocks of empty columns, 65535 rows on one side at a low rate) the raw connector must equal the harness-side defining feature-pair sum for every id pair incl. id 0; the dual connector, under the ascending and 2-8 seeded trial orders of its greedy template split (in production that order is randomly keyed hash order and differs from run to run), must equal for every id pair the reference model clamp16(sum over the pre-summed positions) + sum over the other positions, where the pre-summed positions come from the harness's own re-implementation of the greedy split - also in one world in five whose per-template costs are thousands with signs alternating by blocks of eight positions (partial sums leave 16 bits); when no pre-sum is clamped, raw, dual and a matrix.def materialised from the sums must tokenize alike. A second step exchanges raw and dual images between the portable and the AVX2 build. Sampled over models and split orders, not exhaustive.",
+            "The for-all-models content of the statement is sampled as workload; bigram.cost contains no literal '*' feature and no '/'-only line.",
             "DESIGN.md section 6 (C07)"),
     "C14": ("exploration",
             "model-export simulation: real training, reference image recomputed from RawModel::merge(), four fault-injecting sinks (seeded + enumerated fault offsets), read-back and compile from the simulated disk",
-            "Seeded trainer worlds are trained with the real trainer; write_dictionary's four outputs are compared field by field with a reference image recomputed from the raw model (row order, surfaces, verbatim features, merged class ids, matrix dimensions and entry set, every cost == trunc(-w*32767/max|w|), user rows trained iff given as 0,0,0); short-write/EINTR sinks must not change a byte; a hard fault at any offset of any sink (seeded per run, every offset for a few models) must give Err - never Ok with a short file; the emitted files are read back through faulty readers and must compile, the user file must load. Sampled over worlds; sink offsets exhaustive per enumerated model.",
+            "Seeded trainer worlds are trained with the real trainer; write_dictionary's four outputs are compared field by field with a reference image recomputed from the raw model (row order, surfaces, verbatim features, merged class ids, matrix dimensions and entry set, every cost == trunc(-w*32767/max|w|), user rows trained iff given as 0,0,0, and a user row that duplicates a seed word must get that word's cost); short-write/EINTR sinks must not change a byte, whether the sink is passed by &mut or by value inside a BufWriter/LineWriter the callee owns; a hard fault at any offset of any sink (seeded per run, every offset for a few models) must give Err - never Ok with a short file; the emitted files are read back through faulty readers and must compile, the user file must load. Sampled over worlds; sink offsets exhaustive per enumerated model.",
             "rucrf's merge() is the trusted definition of classes and weights; either floating evaluation order of the cost formula is accepted; worlds whose training fails are skipped.",
             "DESIGN.md section 6 (C14)"),
     "C15": ("exploration",
@@ -75,19 +75,19 @@ CLAIMED.update({
             "DESIGN.md section 6 (C15)"),
     "C16": ("exploration",
             "dictgen->simulated disk->compile pipeline simulation: three fault-injecting bigram sinks, read-back through faulty readers, three consumers (matrix, raw, dual under seeded splits) compared on every id pair",
-            "Seeded trainer worlds: the emitted lex/matrix/unk and bigram.left/right/cost files are read back from the simulated disk and compiled with the matrix, raw and dual connectors (two seeded template splits); for every id pair incl. id 0 dual == raw and |raw - matrix| <= K+1, with equal id counts; benign sink faults change nothing, hard sink faults give Err. One recorded known finding (KF-C16-1, literal '*' features) is matched by its precise predicate only. Sampled, not exhaustive.",
+            "Seeded trainer worlds: the emitted lex/matrix/unk and bigram.left/right/cost files are read back from the simulated disk and compiled with the matrix, raw and dual connectors (two seeded template splits); for every id pair incl. id 0 |raw - matrix| <= K+1 and dual == raw (the latter wherever the negative and the positive per-template costs of the pair each sum to within 16 bits, so that any pre-summed part fits), with equal id counts; one world in ten has more than eight templates; benign sink faults change nothing, hard sink faults give Err. One recorded known finding (KF-C16-1, literal '*' features) is matched by its precise predicate only. Sampled, not exhaustive.",
             "Feature values contain no '/' or tab; worlds whose training fails are skipped.",
             "DESIGN.md section 6 (C16)"),
 })
 CLAIMED.update({
     "C19": ("exploration",
             "corpus round trip through fault-injecting reader and sink (seeded + enumerated sink fault offsets); reference parser; mirrored tokenize loop feeding the parser",
-            "Seeded corpora in the documented format are parsed through short-read/EINTR readers and written back example by example through short-write/EINTR sinks: bytes must equal the canonical re-serialisation of a harness-side reference parse and re-parse to the same examples; malformed lines must be rejected; the mirrored tokenize loop's MeCab-style output for seeded dictionaries and tab-free sentences must parse to exactly the tokenizer's tokens; a hard sink fault at any offset (seeded per run; every offset for 20 examples) makes Example::write return Err, a hard reader fault makes from_reader return Err. Sampled; sink offsets exhaustive per enumerated example.",
+            "Seeded corpora in the documented format are parsed through short-read/EINTR readers and written back example by example through short-write/EINTR sinks: bytes must equal the canonical re-serialisation of a harness-side reference parse and re-parse to the same examples; malformed lines must be rejected; the mirrored tokenize loop's MeCab-style output for seeded dictionaries and tab-free sentences must parse to exactly the tokenizer's tokens; lines of 8 KiB / 16 KiB / 64 KiB +-3 bytes and up to 40 KB occur at a low rate; a hard sink fault at any offset (seeded per run; every offset for 20 examples; sink passed by &mut or by value inside a BufWriter/LineWriter) makes Example::write return Err, a hard reader fault makes from_reader return Err. Sampled; sink offsets exhaustive per enumerated example.",
             "The tokenize CLI's print loop is mirrored, not executed; inputs contain no tab/line-break characters (the statement's precondition).",
             "DESIGN.md section 6 (C19)"),
     "C20": ("exploration",
             "MeCab-model conversion pipeline on a simulated disk: four fault-injecting readers, three fault-injecting sinks (seeded + enumerated offsets), compile of the outputs and comparison with a harness-side model expansion",
-            "Seeded MeCab model descriptions (templates with optional references and literals, id tables, weight tables with zero/truncating/unlisted/unmatched lines, cost factors) are converted through short/EINTR streams; the emitted files are compiled with the raw connector and every non-zero id pair must cost the sum over applicable templates of -trunc(w*factor); ids densely ascending; the statement's three error worlds must return Err; a hard fault at any offset of a sink (seeded; every offset for a few models) must give Err, a fired reader error must give Err. Sampled; sink offsets exhaustive per enumerated model.",
+            "Seeded MeCab model descriptions (templates with optional references and literals, id tables, weight tables with zero/truncating/unlisted/unmatched lines, cost factors) are converted through short/EINTR streams; the emitted files are compiled with the raw connector and every non-zero id pair must cost the sum over applicable templates of -trunc(w*factor); ids dense (the id tables list them in any order: one table in four is shuffled); the statement's three error worlds must return Err; a hard fault at any offset of a sink (seeded; every offset for a few models) must give Err, a fired reader error must give Err. Sampled; sink offsets exhaustive per enumerated model.",
             "Template shapes restricted to the unambiguous ones; feature values contain no '/'; a table without id 0 is outside the statement.",
             "DESIGN.md section 6 (C20)"),
 })
